@@ -455,7 +455,23 @@ func (c *Float) Ident() string {
 	// Insert decimal point if not present.
 	//    3e4 -> 3.0e4
 	//    42  -> 42.0
-	s := c.X.Text('g', -1)
+	//
+	// The shortest digits that identify the value among the values of its kind
+	// are its exact decimal expansion here (IsExact16/32/64 above). Take them
+	// from strconv: big.Float.Text('g', -1) assumes that the neighbours of a
+	// value are equally far away on both sides, which is off just above a power
+	// of two (float 2^25 came out as 3.355443e+07, which is 2^25-2).
+	var s string
+	switch c.Typ.Kind {
+	case types.FloatKindFloat:
+		f, _ := c.X.Float32()
+		s = strconv.FormatFloat(float64(f), 'g', -1, 32)
+	case types.FloatKindDouble:
+		f, _ := c.X.Float64()
+		s = strconv.FormatFloat(f, 'g', -1, 64)
+	default:
+		s = c.X.Text('g', -1)
+	}
 	if !strings.ContainsRune(s, '.') {
 		if pos := strings.IndexByte(s, 'e'); pos != -1 {
 			s = s[:pos] + ".0" + s[pos:]
